@@ -12,11 +12,20 @@ type opres = {
   spec : obs;                (* value-level specification *)
   inputs_valid : bool;
   mutable note : string;
+  unsupported : string;      (* non-empty: outside the specified fragment -> skip *)
 }
 
 let valid_all (cs : content list) = List.for_all valid_b cs
 
 let z = z_of_sx
+
+(* operation given as layout-level model + (type,value)-level spec *)
+let ax_op (model : content -> content res) (spec : ty -> value list -> value list res) (l : Sx.t) : opres =
+  let c = content_of_sx l in
+  let t = type_of c in
+  let spec_o = (match to_list c with Ok vs -> obs_of_list (spec t vs) | Err _ -> OBad "input-to_list") in
+  { model = obs_of_content (model c); spec = spec_o; inputs_valid = valid_b c; note = "";
+    unsupported = (if has_union t then "union" else "") }
 
 (* each op: args (without id/op/impl) -> opres *)
 let run_op (op : string) (args : Sx.t list) : opres =
@@ -24,7 +33,12 @@ let run_op (op : string) (args : Sx.t list) : opres =
   | "id", [l] ->
     let c = content_of_sx l in
     let o = obs_of_list (to_list c) in
-    { model = o; spec = o; inputs_valid = valid_b c; note = "" }
+    { model = o; spec = o; inputs_valid = valid_b c; note = ""; unsupported = "" }
+  | "num", [a; l] -> ax_op (num_model (z a)) (num_spec (z a)) l
+  | "flatten", [a; l] -> ax_op (flatten_model (z a)) (flatten_spec (z a)) l
+  | "localindex", [a; l] -> ax_op (localindex_model (z a)) (localindex_spec (z a)) l
+  | "rpad", [tg; a; l] -> ax_op (rpad_model (z tg) (z a)) (rpad_spec (z tg) (z a)) l
+  | "rpadclip", [tg; a; l] -> ax_op (rpadclip_model (z tg) (z a)) (rpadclip_spec (z tg) (z a)) l
   | _ -> bad ("unknown op " ^ op)
 
 let split_last l =
@@ -52,6 +66,7 @@ let verdict id op args impl =
   | _ ->
     let r = run_op op args in
     if not r.inputs_valid then Printf.sprintf "(%s skip invalid-input)" id
+    else if r.unsupported <> "" then Printf.sprintf "(%s skip unsupported-%s)" id r.unsupported
     else begin
       match impl with
       | ICrash w -> Printf.sprintf "(%s crash %s (spec %s))" id w (string_of_obs r.spec)
